@@ -20,3 +20,6 @@ import TvUring.Props.C20
 #print axioms TV.C20.drop_handle_releases_exactly_one
 #print axioms TV.C20.holder_unique
 #print axioms TV.C20.stays_parked
+#print axioms TV.C20.C20_witness_F_C20_1
+#print axioms TV.C20.C20_partial
+#print axioms TV.C20.C20_fixed
